@@ -32,8 +32,17 @@ def split_cases(draw):
     f = st.one_of(st.sampled_from(FRACS), st.floats(0, 1, allow_nan=False).map(lambda v: round(v, 3)))
     ends = st.sampled_from([0, 1, True, False])           # the end points of [0,1] spelled as Python ints / bools
     f = st.one_of(f, f, f, ends)
-    return {"n": n, "test": draw(f), "val": draw(st.one_of(st.none(), f)), "shuffle": draw(st.booleans()),
-            "seed": draw(st.integers(0, 2 ** 31 - 1)), "default_test": draw(st.integers(0, 7)) == 0}
+    c = {"n": n, "test": draw(f), "val": draw(st.one_of(st.none(), f)), "shuffle": draw(st.booleans()),
+         "seed": draw(st.integers(0, 2 ** 31 - 1)), "default_test": draw(st.integers(0, 7)) == 0}
+    if n >= 1 and draw(st.integers(0, 4)) == 0:
+        # fractions a hair below j/n (and the largest double below 1): the floor rule gives j-1 (resp. n-1), an
+        # implementation that rounds the product first gives j
+        j = draw(st.integers(1, n))
+        eps = draw(st.sampled_from([1e-9, 1e-10, 1e-12, None]))
+        c["test"] = float(np.nextafter(1.0, 0.0)) if eps is None else max(0.0, (j - eps) / n)
+        c["default_test"] = False
+        c["just_below"] = True
+    return c
 
 
 def _floor_sizes(frac, n):
@@ -55,6 +64,8 @@ def check_split(c, rec):
         kw["val_split"] = c["val"]
     if c["shuffle"]:
         kw["shuffle"] = True
+    if c.get("just_below"):
+        rec.tag("fraction_just_below_j/n")
     both = 0 < test < 1 and c["val"] is not None and 0 < c["val"] < 1
     rec.nontrivial(n >= 2 and (both or c["shuffle"]))
     ctx = f"n={n} test_split={test} val_split={c['val']} shuffle={c['shuffle']} seed={c['seed']}"
@@ -119,7 +130,7 @@ def check_split(c, rec):
 def loader_cases(draw):
     n = draw(st.one_of(st.integers(0, 40), st.sampled_from([64, 100, 257])))
     return {"n": n, "batch": draw(st.one_of(st.integers(1, n + 3), st.integers(1, 9))),
-            "transform": draw(st.sampled_from(["none", "none_default", "record", "new_objects", "triple", "dict", "one_object"])),
+            "transform": draw(st.sampled_from(["none", "none_default", "record", "new_objects", "triple", "dict", "one_object", "falsy_record"])),
             "partial_first_pass": draw(st.integers(0, 3)),
             # label arrays are per-sample along axis 0 whatever their trailing shape (id vector, column, one-hot rows,
             # several targets); same for the features
@@ -170,8 +181,17 @@ def check_loader(c, rec):
             produced.append(r)
             return r
 
+    class FalsyRec(Rec):
+        """a transform object whose truth value is False (a pipeline with zero stages): it is still a transform"""
+        def __len__(self):
+            return 0
+
     t = c["transform"]
-    if t in ("triple", "dict", "one_object"):
+    if t == "falsy_record":
+        dl = data.DataLoader(X, y, b, transform=FalsyRec())
+        t = "record"
+        rec.tag("transform_falsy_object")
+    elif t in ("triple", "dict", "one_object"):
         dl = data.DataLoader(X, y, b, transform=Shaped())
     elif t == "none":
         dl = data.DataLoader(X, y, b, transform=None)
